@@ -132,6 +132,7 @@ func vfShapes() []vfShapeDef {
 		{"MultiPolygon[{},[[3]]]", true, func(g *vfGen) ORBQGeometry { return ORBQMultiPolygon{ORBQPolygon{}, g.poly(3)} }},
 		{"MultiPolygon[[[3]],{}]", true, func(g *vfGen) ORBQGeometry { return ORBQMultiPolygon{g.poly(3), ORBQPolygon{}} }},
 		{"MultiPolygon[[[0]],[[3]]]", true, func(g *vfGen) ORBQGeometry { return ORBQMultiPolygon{g.poly(0), g.poly(3)} }},
+		{"MultiPolygon[[[3]],[[3]]]", true, func(g *vfGen) ORBQGeometry { return ORBQMultiPolygon{g.poly(3), g.poly(3)} }},
 		{"MultiPolygon[[[3],[3]],[[3+c]]]", false, func(g *vfGen) ORBQGeometry {
 			return ORBQMultiPolygon{g.poly(3, 3), ORBQPolygon{g.closed(3)}}
 		}},
